@@ -13,6 +13,7 @@ PROP="$(python3 -c "import json;print(json.load(open('$SD/meta.json'))['property
 WT=/tmp/sv-repo-$SLOT
 LOG="$SD/verify.log"; : > "$LOG"
 export CARGO_TARGET_DIR=/tmp/sv-target-$SLOT
+export CARGO_INCREMENTAL=0 CARGO_PROFILE_DEV_DEBUG=0 CARGO_PROFILE_TEST_DEBUG=0
 say() { echo "[seed_verify $NAME] $*" | tee -a "$LOG"; }
 git -C /repo worktree remove --force "$WT" 2>/dev/null; rm -rf "$WT"; git -C /repo worktree prune
 git -C /repo worktree add -q --detach "$WT" HEAD || exit 2
@@ -35,7 +36,8 @@ if [ $APPLY = 1 ]; then
 import json,os
 import xml.etree.ElementTree as ET
 base=json.load(open('/root/.vp/BASELINE.json')); stable=set(base['stable_pass'])
-j=os.path.join(os.environ['CARGO_TARGET_DIR'],'nextest','pb','junit.xml')
+j=os.path.join(os.getcwd(),'target','nextest','pb','junit.xml')
+if not os.path.exists(j): j=os.path.join(os.environ['CARGO_TARGET_DIR'],'nextest','pb','junit.xml')
 res={}
 try:
     for ts in ET.parse(j).getroot().iter('testsuite'):
